@@ -70,3 +70,34 @@ func TestFindDemoColumnsAfterLongBrackets(t *testing.T) {
 		}
 	}
 }
+
+// ... and when the long string / long comment contains non-ASCII text (columns count characters).
+func TestFindDemoColumnsAfterNonASCIILongBrackets(t *testing.T) {
+	cases := []string{
+		"local s = [[中文]]; local target = 1",
+		"--[[ 说明 ]] local target = 1",
+		"local s = [[ab\n中文]]; local target = 1",
+		"local s = \"中文\"; local target = 1", // control: short strings count characters
+	}
+	for _, src := range cases {
+		block, _, _ := CreateParser([]byte(src), "demo.lua").BeginAnalyze()
+		lastLine := src[strings.LastIndex(src, "\n")+1:]
+		want := len([]rune(lastLine[:strings.Index(lastLine, "target")]))
+		found := false
+		for _, st := range block.Stats {
+			if ld, ok := st.(*ast.LocalVarDeclStat); ok {
+				for i, n := range ld.NameList {
+					if n == "target" {
+						found = true
+						if got := ld.VarLocList[i].StartColumn; got != want {
+							t.Errorf("%q: local target reported at column %d, written at column %d", src, got, want)
+						}
+					}
+				}
+			}
+		}
+		if !found {
+			t.Errorf("%q: declaration of target not found in the AST", src)
+		}
+	}
+}
